@@ -332,6 +332,47 @@ def run(run: Run) -> int:
             run.violation("a formula written in Hill order and parsed differs from its own Hill form",
                           dict(string=text), parsed=str(pyside.struct_keys(p.structure)),
                           hill=str(pyside.struct_keys(p.hill.structure)))
+        # the same string carrying a density (tag in the string, density= / natural_density= keyword, attribute set
+        # afterwards): still a formula written in Hill order and parsed from a string, so it equals its own Hill form
+        # (and its Hill form is the Hill form of the string without the density)
+        dens = run.rng.choice([0.42, 1, 1.54, 2.5, 7.874, 19.3, round(run.rng.uniform(0.05, 22.0), 3)])
+        how = run.rng.choice(["@d", "@dn", "@di", "density=", "natural_density=", "attribute"])
+        dinp = dict(string=text, density=dens, density_by=how)
+        run.count(key="dens" + repr(dinp), nontrivial=len(ks) > 1, sample=repr(dinp), tag="string+density")
+        try:
+            if how == "@d":
+                dinp["string"] = "%s@%s" % (text, dens)
+                d = formula(dinp["string"])
+            elif how == "@dn":
+                dinp["string"] = "%s@%sn" % (text, dens)
+                d = formula(dinp["string"])
+            elif how == "@di":
+                dinp["string"] = "%s@%si" % (text, dens)
+                d = formula(dinp["string"])
+            elif how == "density=":
+                d = formula(text, density=dens)
+            elif how == "natural_density=":
+                d = formula(text, natural_density=dens)
+            else:
+                d = formula(text)
+                d.density = dens
+            dh = d.hill
+            verdicts = [("a formula written in Hill order and parsed with a density differs from its own Hill form",
+                         d == dh and dh == d and not (d != dh)),
+                        ("the Hill form of a formula parsed with a density differs from the Hill form of the same "
+                         "string without the density", dh == p.hill and p.hill == dh),
+                        ("taking the Hill form of a formula parsed with a density twice changes it", dh.hill == dh),
+                        ("the Hill form of a formula parsed with a density has other atom counts",
+                         dh.atoms == d.atoms and d.atoms == p.atoms)]
+        except Exception as e:  # noqa
+            run.violation("Hill form of a string in Hill order with a density raised %s: %s"
+                          % (type(e).__name__, str(e)[:80]), dinp)
+            verdicts = []
+        for what, ok in verdicts:
+            if not ok:
+                run.violation(what, dinp, parsed=str(pyside.struct_keys(d.structure)),
+                              hill=str(pyside.struct_keys(dh.structure)))
+                break
         try:
             q = formula(text, table=priv)
             qh = q.hill
